@@ -215,6 +215,12 @@ def make_core(env):
                 raise f("scripted prepare_change() failure")
             return super().prepare_change()
 
+    class ScriptedLibrary:
+        """tracklist.add(uris=...) goes through core.library.lookup: every dummy URI is one track."""
+
+        def lookup_many(self, uris):
+            return {u: [env.track(env.index_of_uri(u))] for u in uris}
+
     class ProviderProxy:
         """Calls the provider synchronously and wraps results/exceptions in futures."""
 
@@ -246,11 +252,11 @@ def make_core(env):
 
         def __init__(self):
             self.playback = ProviderProxy(ScriptedPlayback(audio=env.audio, backend=self))
-            self.library = None
+            self.library = ProviderProxy(ScriptedLibrary())
             self.playlists = None
 
         def has_library(self):
-            return Fut(False)
+            return Fut(True)
 
         def has_library_browse(self):
             return Fut(False)
